@@ -19,7 +19,7 @@ func runC12(opt *Options) int {
 	lr := &laRun{
 		Opt:       opt,
 		E2EAlways: "c12",
-		Pkgs:      []string{"config", "generator"},
+		Pkgs:      []string{"config", "generator", "builder"},
 		Kernels: []layera.Kernel{
 			{Name: "K6.step", Pkg: "config", Harness: "VerifHarness_C12_Step", Unwind: 64, Stub: stub, SetInts: ints},
 			{Name: "K6.unknown", Pkg: "config", Harness: "VerifHarness_C12_Unknown", Unwind: 64, Stub: stub},
@@ -27,6 +27,8 @@ func runC12(opt *Options) int {
 			{Name: "K6.chain", Pkg: "config", Harness: "VerifHarness_C12_Chain", Unwind: 64, Stub: stub, SetInts: ints},
 			{Name: "K6.wronglevel", Pkg: "config", Harness: "VerifHarness_C12_WrongLevel", Unwind: 64, Stub: stub},
 			kernelConverterLines("c12"),
+			{Name: "K17.enumsetting", Pkg: "builder", Harness: "VerifHarness_C12_EnumSettingPerMethod", Unwind: 32},
+			{Name: "K6.methodlines", Pkg: "config", Harness: "VerifHarness_C12_MethodLines", Unwind: 64, E2E: "c12", Stub: []string{"github.com/jmattheis/goverter/method.Parse", "(*github.com/jmattheis/goverter/pkgload.PackageLoader).GetOne"}},
 			{Name: "K6.unknownname", Pkg: "config", Harness: "VerifHarness_C12_UnknownName", Unwind: 64, Stub: stub, SetInts: ints},
 			{Name: "K16.submethod", Pkg: "generator", Harness: "VerifHarness_C12_SubMethod", Unwind: 16, E2E: "c12", Stub: []string{"(*github.com/jmattheis/goverter/generator.generator).CallMethod", "(*github.com/jmattheis/goverter/generator.generator).buildMethod"}},
 		},
